@@ -116,23 +116,12 @@ def unresolved_renamed(exp_p, exp_v):
                   if ob(x[2]) and x[0].endswith('_x') and x[0].split('#')[-1][:-2] in plan_items)
 
 
-GATED = ('plandeps-block-scope', 'rename-unresolved-callee')
+GATED = ('rename-unresolved-callee',)
 
 
 def listed_classes():
     from ..core import load_known
     return {k['class'] for k in load_known() if k['property'] == 'C24' and k.get('status', 'open') == 'open'}
-
-
-def generated_scope_blocked(proj, cfg, pl):
-    """DuplicateKernel pipeline and some block list names the module the duplicate of the kernel is put in
-    (`<module>_dupm`)"""
-    if pl[0] != 'dup':
-        return False
-    home = c22.home_of(proj).get(pl[1])
-    if not home:
-        return False
-    return any(home + '_dupm' in ent.get('block', []) for _, ent in cfg['routines'])
 
 
 def name_generated_items(rng, proj, cfg, kernel):
@@ -144,16 +133,14 @@ def name_generated_items(rng, proj, cfg, kernel):
     home = c22.home_of(proj).get(kernel)
     vals = [kernel + '_dup', kernel + '_dup', kernel]
     if home:
-        vals += [f'{home}_dupm#{kernel}_dup', home + '_dupm']
+        vals += [f'{home}_dupm#{kernel}_dup', home + '_dupm', home + '_du*']
+    else:
+        vals += [kernel + '_du*']
     val = rng.choice(vals)
     if rng.random() < 0.25:
         cfg['ddisable'] = sorted(set(cfg['ddisable']) | {val})
         return cfg
     key = rng.choice(['disable', 'disable', 'block', 'ignore'])
-    if key == 'block' and val.endswith('_dupm') and 'plandeps-block-scope' not in listed_classes():
-        # a *block* entry naming the module of a generated item still makes planning and conversion disagree
-        # (class plandeps-block-scope): generated only once that class is listed among the known findings
-        key = 'disable'
     ents = dict(cfg['routines'])
     ent = ents.setdefault('r0', {})
     ent[key] = sorted(set(ent.get(key, [])) | {val})
@@ -421,11 +408,6 @@ def check_property(res, ctx):
                     f'{unresolved_renamed(p["exp"], res["conv"]["exp"])} but not the routines themselves (driver role / '
                     f'ignored); non-strict, so the renamed callee becomes an ExternalItem in the conversion graph and its '
                     f'file is not written, while planning (the renaming transformations have no plan_* methods) lists it')
-        elif generated_scope_blocked(proj, cfg, pl):
-            cls = 'plandeps-block-scope'
-            what = (f'plan appends {app} but the conversion wrote {written}: a `block` entry names the module of an item '
-                    f'generated by {pl[0]}; planning (SGraph._add_children: match_item_keys on the full and local name) keeps '
-                    f'it, the conversion (create_from_ir, ignore=disable+block with match_item_parents=True) drops it')
         elif drift:
             cls = 'graph-drift'
             what = (f'plan appends {app} but the conversion wrote {written}: items {drift[:4]} differ (ignored / present) '
@@ -671,8 +653,7 @@ class C24(Prop):
         return check_property(res, ctx)
 
     def classes(self):
-        return ['output-collision', 'graph-drift', 'convert-raises', 'created-not-replicated', 'plandeps-block-scope',
-                'rename-unresolved-callee']
+        return ['output-collision', 'graph-drift', 'convert-raises', 'created-not-replicated', 'rename-unresolved-callee']
 
     def shrink_candidates(self, req):
         """structure-preserving smaller requests (the oracle works from wcfg/pipeline/layout/extra/project alone)"""
